@@ -65,7 +65,7 @@ Lemma eval_num_binds : forall ca rm st b base lhs n pr,
     | None => absent_arg pr
     end.
 Proof.
-  intros ca rm st b base lhs n pr H Hmax. unfold eval_ref, resolve.
+  intros ca rm st b base lhs n pr H Hmax. unfold eval_ref, locate, resolve.
   assert (Hle : (ca_maxpos ca <=? S n) = false) by (apply Nat.leb_gt; lia).
   rewrite Hle. specialize (H (S n)).
   destruct (rm_get rm (S n)) as [i|].
@@ -111,7 +111,7 @@ Lemma eval_name_binds : forall ca rm st b base lhs nm ps pr,
         end
     end.
 Proof.
-  intros ca rm st b base lhs nm ps pr H Hn Hne. unfold eval_ref at 1, resolve. rewrite Hn.
+  intros ca rm st b base lhs nm ps pr H Hn Hne. unfold eval_ref at 1, locate, resolve. rewrite Hn.
   destruct ps as [|p0 ps']; [congruence|].
   rewrite (filter_agree st rm b (p0 :: ps') H).
   destruct (filter (present b) (p0 :: ps')) as [|a0 rest] eqn:F; [reflexivity|].
@@ -135,7 +135,7 @@ Proof.
       assert (e1 = e0) by congruence. subst e1.
       rewrite Nat.eqb_refl.
       now rewrite (slot_own_entries base st i0 Hi0), Hx0.
-    + unfold eval_ref, resolve. rewrite Hn, (filter_agree st rm b (p0 :: ps') H), F. unfold last_of.
+    + unfold eval_ref, locate, resolve. rewrite Hn, (filter_agree st rm b (p0 :: ps') H), F. unfold last_of.
       rewrite <- Hal, R0, R1. reflexivity.
   - now rewrite (slot_own_entries base st i0 Hi0), Hx0.
   - now rewrite (slot_own_entries base st i1 Hi1), Hx1.
@@ -200,6 +200,127 @@ Proof.
     + eexists. cbn [app]. reflexivity.
     + eexists. reflexivity.
     + eexists. reflexivity.
+Qed.
+
+(* ---------- ${first()} / ${last()} ---------- *)
+Lemma eval_first_binds : forall ca rm st base lhs pr,
+  eval_ref ca rm (length st) (base ++ st) lhs RFirst pr =
+    match st with
+    | [] => absent_arg pr
+    | e0 :: _ => if has_pos rm 0 then entry_arg e0 pr else AErr 7
+    end.
+Proof.
+  intros ca rm st base lhs pr. unfold eval_ref, locate.
+  destruct st as [|e0 st']; [now destruct pr|].
+  change (length (e0 :: st') =? 0) with false. cbv iota.
+  destruct (has_pos rm 0); [|reflexivity].
+  rewrite Nat.eqb_refl.
+  assert (H : 0 < length (e0 :: st')) by (cbn; lia).
+  pose proof (slot_own_entries base (e0 :: st') 0 H) as S0. rewrite S0. cbn [nth_error].
+  now destruct pr.
+Qed.
+
+Lemma eval_last_binds : forall ca rm st base lhs pr,
+  eval_ref ca rm (length st) (base ++ st) lhs RLast pr =
+    match rev st with
+    | [] => absent_arg pr
+    | e1 :: _ => if has_pos rm (length st - 1) then entry_arg e1 pr else AErr 7
+    end.
+Proof.
+  intros ca rm st base lhs pr. unfold eval_ref, locate.
+  destruct (rev st) as [|e1 r] eqn:E.
+  - assert (st = []) by (rewrite <- (rev_involutive st), E; reflexivity). subst st. now destruct pr.
+  - assert (Hst : st = rev r ++ [e1]) by (rewrite <- (rev_involutive st), E; reflexivity).
+    assert (Hl : length st = S (length r)) by (rewrite Hst, app_length, rev_length; cbn; lia).
+    assert (Hz : (length st =? 0) = false) by (apply Nat.eqb_neq; lia). rewrite Hz.
+    destruct (has_pos rm (length st - 1)); [|reflexivity].
+    rewrite Nat.eqb_refl.
+    assert (H : length st - 1 < length st) by lia.
+    rewrite (slot_own_entries base st (length st - 1) H).
+    assert (Hn : nth_error st (length st - 1) = Some e1).
+    { rewrite Hst at 1. rewrite nth_error_app2 by (rewrite rev_length; lia).
+      rewrite rev_length. replace (length st - 1 - length r) with 0 by lia. reflexivity. }
+    rewrite Hn. now destruct pr.
+Qed.
+
+(* which of the entries a rule pushes belong to a symbol with a position *)
+Definition entry_tag (x : litem) : list bool :=
+  match x with LRef pos => [0 <? pos] | LMid _ => [false] | LFinal _ => [] end.
+
+Definition entry_tags (ls : list litem) : list bool := flat_map entry_tag ls.
+
+Definition tagged (st : list entry) (rm : remap) (tags : list bool) : Prop :=
+  length st = length tags /\ forall i, has_pos rm i = nth i tags false.
+
+Lemma tagged_push : forall st rm tags x, tagged st rm tags -> tagged (st ++ [x]) rm (tags ++ [false]).
+Proof.
+  intros st rm tags x [Hl Hi]. split; [rewrite !app_length; cbn; lia|].
+  intro i. rewrite Hi. destruct (Nat.lt_ge_cases i (length tags)) as [Hlt|Hge].
+  - now rewrite app_nth1.
+  - rewrite (nth_overflow tags) by lia. rewrite app_nth2 by lia.
+    destruct (i - length tags) as [|[|k]]; reflexivity.
+Qed.
+
+Lemma tagged_bind : forall st rm tags pos x,
+  tagged st rm tags -> tagged (st ++ [x]) ((pos, length st) :: rm) (tags ++ [true]).
+Proof.
+  intros st rm tags pos x [Hl Hi]. split; [rewrite !app_length; cbn; lia|].
+  intro i. unfold has_pos. cbn [existsb snd]. fold (has_pos rm i). rewrite Hi, Hl.
+  destruct (Nat.lt_ge_cases i (length tags)) as [Hlt|Hge].
+  - rewrite app_nth1 by exact Hlt. assert (E : (length tags =? i) = false) by (apply Nat.eqb_neq; lia).
+    now rewrite E.
+  - rewrite (nth_overflow tags) by lia. rewrite app_nth2 by lia. rewrite orb_false_r.
+    destruct (Nat.eq_dec i (length tags)) as [->|Hne].
+    + now rewrite Nat.eqb_refl, Nat.sub_diag.
+    + assert (E : (length tags =? i) = false) by (apply Nat.eqb_neq; lia). rewrite E.
+      destruct (i - length tags) as [|[|k]] eqn:Ek; [lia|reflexivity|reflexivity].
+Qed.
+
+Lemma state_after_tagged : forall ls st rm b ch cur st' rm' b' ch' cur' tags,
+  tagged st rm tags -> state_after ls st rm b ch cur = Some (st', rm', b', ch', cur') ->
+  tagged st' rm' (tags ++ entry_tags ls).
+Proof.
+  induction ls as [|x ls IH]; intros st rm b ch cur st' rm' b' ch' cur' tags H E.
+  - cbn in E. inversion E; subst. unfold entry_tags. cbn. now rewrite app_nil_r.
+  - unfold entry_tags. cbn [flat_map]. fold (entry_tags ls). rewrite app_assoc.
+    destruct x as [pos|cs|cs]; cbn [state_after entry_tag] in *.
+    + destruct ch as [|c ch0]; [discriminate|]. eapply IH; [|exact E].
+      destruct (0 <? pos); [now apply tagged_bind | now apply tagged_push].
+    + eapply IH; [|exact E]. now apply tagged_push.
+    + rewrite app_nil_r. eapply IH; [|exact E]. exact H.
+Qed.
+
+(* first() / last() at a site reached by run: the first entry the rule pushed / the last one pushed before the
+   site, provided it belongs to a symbol with a position; nil / -1 when nothing has been pushed *)
+Theorem first_last_bind : forall ca l1 ch start st rm b ch' cur base lhs pr,
+  state_after l1 [] [] [] ch start = Some (st, rm, b, ch', cur) ->
+  eval_ref ca rm (length st) (base ++ st) lhs RFirst pr =
+    match st with
+    | [] => absent_arg pr
+    | e0 :: _ => if hd false (entry_tags l1) then entry_arg e0 pr else AErr 7
+    end /\
+  eval_ref ca rm (length st) (base ++ st) lhs RLast pr =
+    match rev st with
+    | [] => absent_arg pr
+    | e1 :: _ => if hd false (rev (entry_tags l1)) then entry_arg e1 pr else AErr 7
+    end.
+Proof.
+  intros ca l1 ch start st rm b ch' cur base lhs pr E.
+  assert (T0 : tagged [] [] []) by (split; [reflexivity | intro i; now destruct i]).
+  pose proof (state_after_tagged l1 [] [] [] ch start st rm b ch' cur [] T0 E) as [Hl Hi]. cbn [app] in *.
+  split.
+  - rewrite eval_first_binds. destruct st as [|e0 st']; [reflexivity|].
+    rewrite Hi. destruct (entry_tags l1); [discriminate Hl | reflexivity].
+  - rewrite eval_last_binds. destruct (rev st) as [|e1 r] eqn:Er; [reflexivity|].
+    rewrite Hi, Hl.
+    assert (Hn : forall (t : list bool), t <> [] -> nth (length t - 1) t false = hd false (rev t)).
+    { intros t Ht. destruct (rev t) as [|x r'] eqn:Et.
+      - exfalso. apply Ht. rewrite <- (rev_involutive t), Et. reflexivity.
+      - assert (t = rev r' ++ [x]) by (rewrite <- (rev_involutive t), Et; reflexivity). subst t.
+        rewrite app_length, rev_length. cbn [length hd]. rewrite app_nth2 by (rewrite rev_length; lia).
+        rewrite rev_length. replace (length r' + 1 - 1 - length r') with 0 by lia. reflexivity. }
+    rewrite Hn; [reflexivity|].
+    intro Ht. rewrite Ht in Hl. cbn in Hl. apply length_zero_iff_nil in Hl. subst st. discriminate Er.
 Qed.
 
 (* ---------- pick chooses one of the expansions ---------- *)
